@@ -83,6 +83,7 @@ FAMILIES["mode"] = {
 
 PROPS = {
     "C09": {"custom": "funcheck"},
+    "C19": {"custom": "funcheck"},
     "C02": {"families": ["mode", "fault", "data"]},
     "C01": {"families": ["data", "gen"]},
     "C03": {"families": ["gen", "life"]},
